@@ -85,6 +85,8 @@ def handle (op : String) (args : List Arg) : Option String :=
   let big (n : Nat) : Option Unit := if n > limit then none else some ()
   -- the coset routines with few points are cheap in the model up to 2^18
   let bigC (n : Nat) : Option Unit := if n > 600000 then none else some ()
+  -- above 2^18 only with a handful of points (the long division by the zerofier dominates)
+  let bigP (n pts : Nat) : Option Unit := if n > 300000 && pts > 8 then none else some ()
   match op, args with
   | "evaluate", [p, x] => do
       let p ← L p; let x ← c.elem? x
@@ -145,17 +147,17 @@ def handle (op : String) (args : List Arg) : Option String :=
         | some v => "ok:" ++ c.fmtL [v]
         | none => "panic")
   | "coset_extrapolate", [.nat off, cw, pts] => do
-      let cw ← L cw; let pts ← L pts; bigC (cw.length + pts.length); big (pts.length * 20)
+      let cw ← L cw; let pts ← L pts; bigC (cw.length + pts.length); big (pts.length * 20); bigP cw.length pts.length
       pure (okVals c (cosetExtrapolate F E (F.ofNat off) cw pts))
   | "batch_coset_extrapolate", [.nat off, .nat n, cws, pts] => do
-      let cws ← L cws; let pts ← L pts; bigC (cws.length + pts.length); big (pts.length * 20)
+      let cws ← L cws; let pts ← L pts; bigC (cws.length + pts.length); big (pts.length * 20); bigP n pts.length
       pure (okVals c (batchCosetExtrapolate F E (F.ofNat off) n cws pts))
   | "par_batch_coset_extrapolate", [.nat _, .nat off, .nat n, cws, pts] => do
-      let cws ← L cws; let pts ← L pts; bigC (cws.length + pts.length); big (pts.length * 20)
+      let cws ← L cws; let pts ← L pts; bigC (cws.length + pts.length); big (pts.length * 20); bigP n pts.length
       pure (okVals c (batchCosetExtrapolate F E (F.ofNat off) n cws pts))
   | "fmci", [.nat off, v, pts] => do
       -- modulus = prod (X - p_j) over the given points
-      let v ← L v; let pts ← L pts; bigC (v.length + pts.length); big (pts.length * 20)
+      let v ← L v; let pts ← L pts; bigC (v.length + pts.length); big (pts.length * 20); bigP v.length pts.length
       pure (okPoly c (fmci F E Thr.src v (F.ofNat off) (smartZerofier F pts)))
   | _, _ => none
 
